@@ -46,12 +46,21 @@ func c06atomic(c *an.Ctx) {
 		wSucc, _ := an.ErrEdges(wc.Value())
 		rSucc, _ := an.ErrEdges(rc.Value())
 		// success return cut by rename success; rename cut by write success
-		q1 := &an.PathQ{Fn: persist, StartEntry: true, Sink: sinkSuccessReturn, CutEdge: func(e an.Edge, _ *an.PathState) bool { return an.EdgeIn(e, rSucc) }}
+		// (a return of the rename's own error is nil exactly when the rename succeeded)
+		q1 := &an.PathQ{Fn: persist, StartEntry: true, Marked: an.ResultN(rc.Value(), 0),
+			Sink: func(in ssa.Instruction, st *an.PathState) bool {
+				if !sinkSuccessReturn(in, st) {
+					return false
+				}
+				e := errOperand(in.(*ssa.Return))
+				return e == nil || !st.Marked(e)
+			},
+			CutEdge: func(e an.Edge, _ *an.PathState) bool { return an.EdgeIn(e, rSucc) }}
 		w1, f1 := q1.Find()
 		q2 := &an.PathQ{Fn: persist, StartEntry: true, Sink: func(in ssa.Instruction, _ *an.PathState) bool { return in == rc.(ssa.Instruction) },
 			CutEdge: func(e an.Edge, _ *an.PathState) bool { return an.EdgeIn(e, wSucc) }}
 		w2, f2 := q2.Find()
-		if f1 || len(rSucc) == 0 {
+		if f1 {
 			c.Bad(persist, "nil only after rename succeeded", rc.Pos(), "PersistMetadata can report success although the rename over nsqd.dat failed or did not happen", w1)
 		} else {
 			c.OK(persist, "nil only after rename succeeded", rc.Pos(), "")
